@@ -667,6 +667,23 @@ Theorem C11_gen_addnogrow_is_tadd :
 Proof. exact gen_addnogrow_is_tadd. Qed.
 Print Assumptions C11_gen_addnogrow_is_tadd.
 
+(* the WHOLE generated pvAddNogrow (instantiation <false>, translated with loop_return_keeps_state; tables of up to 70 buckets = the translator's fuel): throws 'Hash table is full' iff the hand model's add_loop fails; otherwise the returned position names the bucket where tadd puts the item, mCount is unchanged, and the probe count handed to startBucket.UpdateMaxProbe (recorded field rec_maxprobe) is the one tadd hands to upd_bound. *)
+Theorem C11_gen_addnogrow_whole :
+  forall (B : Type) (b0 : B) (cap : Z) (wf0 : bool) (next : Z -> Z -> Z -> Z) (t : table B) (start : Z -> Z -> Z)
+           (hc blog bp : Z) (badd : Z -> Z -> Z -> Z -> Z -> Z -> Z) (ver : Z) (mkpos : Z -> Z -> Z -> Z) 
+           (c cp mb rmp creator : Z),
+         0 <= tlog B t ->
+         bcount B t <= 70 ->
+         let i0 := start hc (bcount B t) in
+         Gen_HashSetMove.pvAddNogrow blog bp (fun i : Z => isFull B cap (getb B b0 wf0 t i)) (fun i _ bc p : Z => next i bc p)
+           start badd ver (fun _ i : Z => i) mkpos (fun _ : Z => bcount B t) c cp mb rmp 0 hc creator =
+         match add_loop B b0 cap wf0 next (Z.to_nat (bcount B t - 1)) t 0 i0 with
+         | Some (i, q) => GenPrelude.Ok (mkpos i (badd i bp creator hc blog (Z.of_nat q)) ver, c, Z.of_nat q)
+         | None => GenPrelude.Exn
+         end.
+Proof. exact gen_addnogrow_whole. Qed.
+Print Assumptions C11_gen_addnogrow_whole.
+
 (* the same, loop against loop: generated pvAddNogrow loop = the hand model's add_loop from any intermediate probe. *)
 Theorem C11_gen_addnogrow_loop :
   forall (B : Type) (b0 : B) (cap : Z) (wf0 : bool) (next : Z -> Z -> Z -> Z) (t : table B) (n : nat) 
